@@ -70,6 +70,15 @@ def variants(cfgname, ch_this, ch_other, ch_old, accepted_elsewhere=None):
     v["relay_good_then_bad"] = (auth("K1", ch_this, url, tags=[["relay", url], ["relay", "ws://evil"], ["challenge", ch_this]]), "free")
     for d, exp in ((-601, None), (-600, "free"), (-599, "K1"), (0, "K1"), (599, "K1"), (600, "free"), (601, None)):
         v["created_at_%+d" % d] = (auth("K1", ch_this, url, created_at=NOW + d), exp)
+    # timestamps that are not integers: not-a-number and the infinities are never "within ten minutes of now"; a fractional or
+    # oddly typed timestamp inside the window is left free
+    for nm, ca, exp in (("nan", float("nan"), None), ("inf", float("inf"), None), ("neg_inf", float("-inf"), None), ("float_in", NOW + 0.5, "free"),
+                        ("float_old", NOW - 600.5, None), ("float_new", NOW + 600.5, None), ("huge", 10 ** 30, None), ("neg", -NOW, None),
+                        ("true", True, None), ("string_now", str(NOW), "free"), ("null", None, None), ("list", [NOW], None)):
+        try:
+            v["created_at_" + nm] = (auth("K1", ch_this, url, created_at=ca), exp)
+        except Exception:
+            pass
     v["tags_short_relay"] = (auth("K1", ch_this, url, tags=[["relay"], ["challenge", ch_this]]), None)
     v["tags_short_challenge"] = (auth("K1", ch_this, url, tags=[["relay", url], ["challenge"]]), None)
     v["tags_empty"] = (auth("K1", ch_this, url, tags=[]), None)
